@@ -41,7 +41,7 @@ def disjoint(a, b):
     return not (a == b or a.startswith(b + '/') or b.startswith(a + '/'))
 
 
-def build_steps(g):
+def build_steps(g, direct=False):
     """a document and a matcher sequence with, per matcher, what must come out:
     (token, [flattened target paths] | None, new value, error expected)"""
     r = g.r
@@ -134,7 +134,7 @@ def build_steps(g):
         elif k < 0.9:
             # (a callback that returns nil redacts the value to null: it is a replacement like any other)
             ph = 'null' if r.random() < 0.25 else r.choice(docs.PLACEHOLDERS)
-            steps.append((docs.custom_matcher(gp, True, ph), [fp], json.loads(ph), False))
+            steps.append((docs.custom_matcher(gp, True, ph, as_bytes=direct and isinstance(json.loads(ph), str) and r.random() < 0.4), [fp], json.loads(ph), False))
             set_path(cur, fp, json.loads(ph))
         else:
             steps.append((docs.any_matcher(['definitely.missing'], None, True), None, None, True))
@@ -157,7 +157,7 @@ def pruned(g, d, prefer):
 
 def make_world(g, tag):
     r = g.r
-    d, steps, _, lenient_first = build_steps(g)
+    d, steps, _, lenient_first = build_steps(g, direct=True)
     w = World(tag)
     text = d.text().encode()
 
